@@ -314,11 +314,54 @@ def _corr_data(ctx):
     ctx.say(f"[corr] C14_data: 3 files, {ctx.corr_stats.get('C14_data', {}).get('disagree', 0)} disagreements")
 
 
+def _corr_tables(ctx):
+    """the objects of the centrepiece theorem: P[m,n], dP[m,n], S[m,n] of the float hand model vs the arrays
+    denormalize_coefficients leaves behind (S is read off by setting every coefficient to 1)"""
+    from ahrs.utils.wmm import WMM
+    lats = [0.0, 90.0, -90.0, 45.0, -30.0, 89.999999, 1e-9] + [float(x) for x in ctx.rng.uniform(-90, 90, ctx.n(8, 60))]
+    idx = "(flat_map (fun n => map (fun m => (n, m)) (seq 0 (S n))) (seq 0 13))"
+    exprs = []
+    for la in lats:
+        phi = math.radians(la)
+        s_, c_ = _hx(np.sin(phi)), _hx(np.cos(phi))
+        exprs.append(f"map (fun nm => Pmn (rops_of OpsF) {s_} {c_} (fst nm) (snd nm)) {idx} ++ "
+                     f"map (fun nm => dPmn (rops_of OpsF) {s_} {c_} (fst nm) (snd nm)) {idx}")
+    exprs.append(f"map (fun nm => Smn OpsF (fst nm) (snd nm)) {idx}")
+    outs = ctx.coq_eval('C14_tables', PRE_F, exprs)
+    if outs is None:
+        return
+    pairs = [(n, m) for n in range(NMAX + 1) for m in range(n + 1)]
+    worst = 0.0
+    for la, o in zip(lats + [None], outs):
+        w = WMM(date=2022.5, latitude=0.0, longitude=0.0)
+        w.load_coefficients(w.wmm_filename)
+        if la is None:
+            w.c[:] = 1.0
+            w.denormalize_coefficients(0.3)
+            impl = np.array([w.c[m, n] for n, m in pairs])
+        else:
+            w.denormalize_coefficients(math.radians(la))
+            impl = np.array([w.P[m, n] for n, m in pairs] + [w.dP[m, n] for n, m in pairs])
+        mod = np.array(_floats(o))
+        if mod.shape != impl.shape:
+            ctx.disagree('C14_tables', {'lat': la}, mod.shape, impl.shape, 'shape')
+            continue
+        d = float(np.max(np.abs(mod - impl) / np.maximum(1.0, np.abs(impl))))
+        worst = max(worst, d)
+        if d > 1e-14:
+            k = int(np.argmax(np.abs(mod - impl)))
+            ctx.disagree('C14_tables', {'lat': la, 'index': k}, mod[k], impl[k], f'relative difference {d:.3g}')
+        else:
+            ctx.agree('C14_tables', len(impl))
+    ctx.say(f"[corr] C14_tables: {len(lats)} latitudes x 182 Legendre values + 91 Schmidt factors, "
+            f"{ctx.corr_stats.get('C14_tables', {}).get('disagree', 0)} disagreements, max relative difference {worst:.3g}")
+
+
 def correspondence(ctx):
     cases = gen_cases(ctx.rng, ctx.n(60, 400))
     for k, d in GEN_DATES.items():
         cs = [{'lat': c[0], 'lon': c[1], 'h': c[2]} for c in cases]
-        ctx.correspond(f'C14_field_{k}', cs, (lambda c, d=d: impl_field(c['lat'], c['lon'], c['h'], d)), tol_ulp=1 << 14,
+        ctx.correspond(f'C14_field_{k}', cs, (lambda c, d=d: impl_field(c['lat'], c['lon'], c['h'], d)), tol_ulp=512,
                        scale_floor=6e4)
     from ahrs.utils.wmm import geodetic2spherical
     ctx.correspond('C14_g2s', [{'lat': math.radians(c[0]), 'lon': math.radians(c[1]), 'h': c[2]} for c in cases],
@@ -333,6 +376,7 @@ def correspondence(ctx):
     ctx.correspond('C14_legendre', [{'phi': math.radians(c[0])} for c in cases[:ctx.n(30, 200)]], leg, tol_ulp=256, scale_floor=16.0)
     _corr_data(ctx)
     _corr_epoch(ctx)
+    _corr_tables(ctx)
     n = ctx.n(1000, 20000)
     allc = gen_cases(ctx.rng, n)
     for i in range(0, len(allc), 2500):
